@@ -25,11 +25,33 @@ def setter_instances(repo):
         if not ps:
             continue
         p = ps[0]
+        own = []
         for c in ast.walk(fn):
             if isinstance(c, ast.Compare) and len(c.ops) == 1 and isinstance(c.ops[0], (ast.In, ast.NotIn)):
                 L, S = c.left, c.comparators[0]
                 if any(isinstance(x, ast.Name) and x.id == p for x in ast.walk(L)) and not any(isinstance(x, ast.Name) and x.id == p for x in ast.walk(S)):
-                    out.append((m, q, fn, cl, p, c, L, S))
+                    own.append((m, q, fn, cl, p, c, L, S))
+        out += own
+        if own:
+            continue
+        # a setter that delegates the admission to a validator of the package: `self._x = check_x(val)`; the validator's membership test on
+        # its own parameter is the setter's test, and what the validator returns is what is stored
+        for a in ast.walk(fn):
+            if isinstance(a, ast.Assign) and any(isinstance(t, ast.Attribute) and isinstance(t.value, ast.Name) and t.value.id == "self" for t in a.targets) \
+                    and isinstance(a.value, ast.Call) and isinstance(a.value.func, ast.Name) and a.value.args and isinstance(a.value.args[0], ast.Name) and a.value.args[0].id == p:
+                r = repo.resolve_name(m, a.value.func.id)
+                if not (r and r[0] == "func"):
+                    continue
+                vm, vfn = r[1], r[2]
+                vps = [x.arg for x in vfn.args.args]
+                if not vps:
+                    continue
+                vp = vps[0]
+                for c in ast.walk(vfn):
+                    if isinstance(c, ast.Compare) and len(c.ops) == 1 and isinstance(c.ops[0], (ast.In, ast.NotIn)):
+                        L, S = c.left, c.comparators[0]
+                        if any(isinstance(x, ast.Name) and x.id == vp for x in ast.walk(L)) and not any(isinstance(x, ast.Name) and x.id == vp for x in ast.walk(S)):
+                            out.append((vm, q, vfn, cl, vp, c, L, S))
     return out
 
 
@@ -41,6 +63,8 @@ def checked_is_stored(repo, res, rule, only=None):
         n += 1
         stores = [s for s in ast.walk(fn) if isinstance(s, ast.Assign) and any(isinstance(t, ast.Attribute) and isinstance(t.value, ast.Name)
                                                                                  and t.value.id == "self" for t in s.targets)]
+        if not q.split(".")[-1].startswith(fn.name) and not stores:
+            stores = [s for s in ast.walk(fn) if isinstance(s, ast.Return) and s.value is not None]     # delegated: the returned value is stored
         bare = isinstance(L, ast.Name)
         ok, bad = True, None
         if not bare:
@@ -61,7 +85,13 @@ def checked_is_stored(repo, res, rule, only=None):
     return n
 
 
-def literal_members(S):
+def literal_members(S, repo=None, mod=None):
+    if isinstance(S, ast.Name) and repo is not None and mod is not None:
+        r = repo.resolve_name(mod, S.id)            # a module-level table: NAME = frozenset(("right", "left"))
+        if r and r[0] == "const":
+            S = r[2]
+    if isinstance(S, ast.Call) and isinstance(S.func, ast.Name) and S.func.id in ("frozenset", "set", "tuple", "list") and len(S.args) == 1 and not S.keywords:
+        S = S.args[0]
     if isinstance(S, (ast.Set, ast.Tuple, ast.List)) and all(isinstance(e, ast.Constant) for e in S.elts):
         return {e.value for e in S.elts}
     return None
